@@ -1065,3 +1065,151 @@ Section Region.
     subst r. cbn [fst snd]. eexists _, i1. split; [reflexivity|]. cbn [memm]. split; [exact R2|]. split; [exact Ib2|]. split; [exact Ie|exact Ixr].
   Qed.
 End Region.
+
+(* ------------------------------------------------------------------ region_full and the capacity model *)
+(* CapDefs.ex_region is region_full with *beg, *end forgotten when the address is rejected *)
+Definition proj_res {A B} (f : A -> B) (r : CapDefs.res A) : CapDefs.res B :=
+  match r with CapDefs.Ok a => CapDefs.Ok (f a) | CapDefs.OobRd => CapDefs.OobRd | CapDefs.OobWr => CapDefs.OobWr | CapDefs.NoFuel => CapDefs.NoFuel end.
+Lemma rloop_proj lineno : forall fuel s i xrow k b e,
+  CapDefs.region_loop lineno fuel s i xrow k b e
+  = proj_res (fun r : bool * Z * Z * Z => let '(bad, b', e', xr) := r in (if bad then None else Some (b', e'), xr))
+             (rloop lineno fuel s i xrow k b e).
+Proof.
+  induction fuel as [|fuel IH]; intros s i xrow k b e; [reflexivity|]. cbn [CapDefs.region_loop rloop].
+  destruct (CapDefs.rd s i) as [c| | |]; cbn [CapDefs.bind proj_res]; try reflexivity.
+  destruct (c =? 0)%N; [reflexivity|].
+  destruct (lineno xrow s i) as [[n j]| | |]; cbn [CapDefs.bind proj_res fst snd]; try reflexivity.
+  destruct (n + 1 <? 0); [reflexivity|]. unfold sep_pre.
+  destruct (CapDefs.skip_while (S (length s)) _ s j) as [j2| | |]; cbn [CapDefs.bind proj_res]; try reflexivity.
+  destruct (CapDefs.rd s j2) as [c2| | |]; cbn [CapDefs.bind proj_res]; try reflexivity.
+  destruct (c2 =? 0)%N; [reflexivity|]. apply IH.
+Qed.
+Lemma region_proj len lineno loc xrow :
+  CapDefs.ex_region len lineno loc xrow
+  = proj_res (fun r : bool * Z * Z * Z => let '(bad, b, e, xr) := r in (if bad then CapDefs.RFail else CapDefs.ROk b e, xr))
+             (region_full len lineno loc xrow).
+Proof.
+  unfold CapDefs.ex_region, region_full. destruct (CapDefs.bytes_eqb loc [37%N]); [reflexivity|].
+  destruct (CapDefs.rd loc 0) as [c| | |]; cbn [CapDefs.bind proj_res]; try reflexivity.
+  destruct (c =? 0)%N; [cbn [proj_res]; destruct ((xrow <? 0) || (len <? xrow)); reflexivity|].
+  rewrite rloop_proj. destruct (rloop lineno (S (length loc)) loc 0 xrow 0 0 0) as [[[[bad b] e] xr]| | |]; cbn [CapDefs.bind proj_res fst snd]; try reflexivity.
+  destruct bad; [reflexivity|].
+  repeat match goal with |- context [if ?c then _ else _] => destruct c end; reflexivity.
+Qed.
+Lemma rloop_ext l1 l2 s : (forall xr i, l1 xr s i = l2 xr s i) -> forall fuel i xrow k b e, rloop l1 fuel s i xrow k b e = rloop l2 fuel s i xrow k b e.
+Proof.
+  intro H. induction fuel as [|fuel IH]; intros; [reflexivity|]. cbn [rloop]. rewrite H.
+  destruct (CapDefs.rd s i); cbn [CapDefs.bind]; try reflexivity. destruct (_ =? 0)%N; [reflexivity|].
+  destruct (l2 xrow s i) as [[n j]| | |]; cbn [CapDefs.bind fst snd]; try reflexivity. destruct (n + 1 <? 0); [reflexivity|].
+  destruct (CapDefs.skip_while _ _ s j); cbn [CapDefs.bind]; try reflexivity.
+  destruct (CapDefs.rd s _); cbn [CapDefs.bind]; try reflexivity. destruct (_ =? 0)%N; [reflexivity|]. apply IH.
+Qed.
+Lemma region_full_ext len l1 l2 s xrow : (forall xr i, l1 xr s i = l2 xr s i) -> region_full len l1 s xrow = region_full len l2 s xrow.
+Proof. intro H. unfold region_full. rewrite (rloop_ext l1 l2 s H). reflexivity. Qed.
+(* without '/' and '?' in the string the search oracle is never consulted *)
+Definition search0 : Z -> bytes -> nat -> option Z * nat := fun _ _ k => (None, k).
+Lemma lineno_nosearch len mark search s : nosearch s -> forall xr i,
+  CapDefs.ex_lineno len mark search xr s i = CapDefs.ex_lineno len mark search0 xr s i.
+Proof.
+  intros Hno xr i. unfold CapDefs.ex_lineno. destruct (CapDefs.rd s i) as [c| | |] eqn:Hc; cbn [CapDefs.bind]; try reflexivity.
+  destruct ((c =? 47) || (c =? 63))%N eqn:E; [|reflexivity]. exfalso.
+  unfold CapDefs.rd in Hc. destruct (nth_error s i) as [c'|] eqn:En.
+  - injection Hc as ->. apply nth_error_In in En. unfold nosearch in Hno. rewrite Forall_forall in Hno. destruct (Hno c En) as (A & B).
+    destruct (N.eqb_spec c 47); [congruence|]. destruct (N.eqb_spec c 63); [congruence|discriminate].
+  - destruct (i =? length s)%nat; [|discriminate]. injection Hc as <-. discriminate.
+Qed.
+Lemma cap_bytes_eqb_eq : forall a b, CapDefs.bytes_eqb a b = true -> a = b.
+Proof.
+  induction a as [|x a IH]; destruct b as [|y b]; cbn; try discriminate; [reflexivity|]. intro H. apply andb_true_iff in H as [H1 H2].
+  apply N.eqb_eq in H1. subst. f_equal. apply IH. exact H2.
+Qed.
+Lemma cap_bytes_eqb_refl : forall a, CapDefs.bytes_eqb a a = true.
+Proof. induction a as [|x t IH]; [reflexivity|]. cbn. rewrite N.eqb_refl. exact IH. Qed.
+Lemma region_full_total len mark search s xrow : mark 0%N = None ->
+  (forall xr i, (i < length s)%nat -> (i <= snd (search xr s i))%nat /\ (snd (search xr s i) <= length s)%nat) ->
+  exists r, region_full len (CapDefs.ex_lineno len mark search) s xrow = CapDefs.Ok r.
+Proof.
+  intros Hm Hin.
+  (* an oracle that agrees with search on s and stays inside every string *)
+  set (search1 := fun xr (t : bytes) i => if CapDefs.bytes_eqb t s then search xr t i else (@None Z, i)).
+  pose proof cap_bytes_eqb_eq as Hb. pose proof (cap_bytes_eqb_refl s) as Hrefl.
+  assert (Hext : forall xr i, CapDefs.ex_lineno len mark search xr s i = CapDefs.ex_lineno len mark search1 xr s i).
+  { intros. unfold CapDefs.ex_lineno, search1. rewrite Hrefl. reflexivity. }
+  rewrite (region_full_ext len _ _ s xrow Hext).
+  destruct (CapProps.ex_region_total len (CapDefs.ex_lineno len mark search1)
+              (CapProps.ex_lineno_ok len mark search1 Hm ltac:(intros xr t i Hi; unfold search1; destruct (CapDefs.bytes_eqb t s) eqn:E; [apply Hb in E; subst t; apply Hin; exact Hi|cbn [snd]; lia]))
+              s xrow) as (r & E).
+  rewrite region_proj in E. destruct (region_full len (CapDefs.ex_lineno len mark search1) s xrow) as [r'| | |]; try discriminate. eauto.
+Qed.
+
+(* ------------------------------------------------------------------ ex_region on addresses without a search *)
+(* one call of the translated ex_lineno, in the form ex_region's loop uses it *)
+Lemma call_ex_lineno m bs bn bl s i xrow len gbufs lblk search d fuel n j :
+  str_at m bs s -> bytes_lt256 s -> nth_error m bn = Some [VPtr bs (Z.of_nat i)] -> cell_at m G_xrow xrow ->
+  nth_error m G_bufs = Some gbufs -> nth_error gbufs BUFS_LB = Some (VPtr bl 0) ->
+  nth_error m bl = Some lblk -> nth_error lblk L_ln_n = Some (VInt len) -> marks_ints lblk ->
+  bs <> bn /\ G_xrow <> bn /\ G_bufs <> bn /\ bl <> bn -> int_ok xrow -> int_ok len ->
+  nosearch s -> (i <= length s)%nat -> (2 * S (length s) <= fuel)%nat ->
+  CapDefs.ex_lineno len (mark_of lblk) search xrow s i = CapDefs.Ok (n, j) -> lineno_fit len (mark_of lblk) search xrow s i ->
+  exists j' nb, callf cprog fuel (S (S (S d))) F_ex_lineno [VPtr bn 0] m
+                = Ok (VInt n, upd m bn [VPtr bs (Z.of_nat j')] ++ [[VInt nb]]) /\
+                (j' = j \/ n = -2) /\ (i <= j')%nat /\ (j' <= length s)%nat /\ int_ok n.
+Proof.
+  intros Hs H256 Hn Hx Hb Hbl Hl Hln Hm Hne Hxr Hlen Hno Hi Hf E Hfit.
+  destruct (lineno_body_ok m bs bn bl s i xrow len gbufs lblk Hs H256 Hn Hx Hb Hl Hne Hxr Hm (callf cprog fuel (S (S d)))
+              (fun mm H => call_ex_lbuf mm gbufs bl (S d) fuel H Hbl)
+              (fun mm H => call_lbuf_len mm bl lblk len (S d) fuel H Hln Hlen)
+              (fun mm c bp pblk H1 H2 H3 H4 H5 => call_lbuf_jump mm bl lblk c bp pblk d fuel H1 Hm H2 H3 H4 H5)
+              search (or_introl Hno) fuel n j Hi E Hfit Hf) as (j' & nb & Ex & R).
+  exists j', nb. split; [|exact R].
+  rewrite callf_S. cbn [nth_error cprog F_ex_lineno]. change (fn_nparams cf_ex_lineno) with 1%nat. change (fn_nlocals cf_ex_lineno) with 2%nat.
+  cbn [length Nat.eqb Nat.sub repeat app]. rewrite Ex. reflexivity.
+Qed.
+
+(* For every NUL-free address string without '/' and '?', every buffer length, current line and mark table inside int:
+   the model returns a value r = (rejected, beg, end, xrow') (so does CapDefs.ex_region: C05_region_reads_safe), and when the
+   numbers computed on the way fit into int (region_fit) the call ex_region(loc, &beg, &end) returns 1 or 0 as the model
+   says, has stored the model's beg and end through its out-parameters and the model's xrow' in xrow, and has left every
+   other block of the memory it was given as it was (what it allocated stays behind the end of m).
+   *end must hold an int at the call: the C text reads it (`int end0 = *end`) before it writes it. *)
+Theorem tr_ex_region m bs bb be bl s xrow len gbufs lblk vb0 e0 search d fuel :
+  str_at m bs s -> nonul s -> cell_at m G_xrow xrow ->
+  nth_error m bb = Some [vb0] -> nth_error m be = Some [VInt e0] ->
+  nth_error m G_bufs = Some gbufs -> nth_error gbufs BUFS_LB = Some (VPtr bl 0) ->
+  nth_error m bl = Some lblk -> nth_error lblk L_ln_n = Some (VInt len) -> marks_ints lblk ->
+  nth_error m G_lit_25_1 = Some gb_lit_25_1 -> rdist bs bb be bl ->
+  int_ok xrow -> int_ok len -> int_ok e0 -> 2 * Z.of_nat (S (length s)) <= 2147483647 ->
+  nosearch s -> (2 * S (length s) <= fuel)%nat ->
+  exists r, region_full len (CapDefs.ex_lineno len (mark_of lblk) search) s xrow = CapDefs.Ok r /\
+    (region_fit len (mark_of lblk) search s xrow ->
+     exists m', callf cprog fuel (S (S (S (S d)))) F_ex_region [VPtr bs 0; VPtr bb 0; VPtr be 0] m
+                = Ok (VInt (b2z (fst (fst (fst r)))), m') /\
+       nth_error m' bb = Some [VInt (snd (fst (fst r)))] /\ nth_error m' be = Some [VInt (snd (fst r))] /\
+       cell_at m' G_xrow (snd r) /\
+       (forall b', (b' < length m)%nat -> b' <> bb -> b' <> be -> b' <> G_xrow -> nth_error m' b' = nth_error m b')).
+Proof.
+  intros Hs Hnn Hx Hbeg Hend Hb Hbl Hl Hln Hm Hlit Hdist Hxr Hlen He0 Hbig Hno Hf.
+  pose proof (nonul_lt256 s Hnn) as H256.
+  assert (Hlt : (bs < length m)%nat /\ (bb < length m)%nat /\ (be < length m)%nat /\ (bl < length m)%nat /\
+                (G_xrow < length m)%nat /\ (G_bufs < length m)%nat).
+  { unfold str_at, cell_at in *. repeat split; apply nth_error_Some; congruence. }
+  destruct (region_full_total len (mark_of lblk) search0 s xrow (mark_of_0 lblk) ltac:(intros; unfold search0; cbn [snd]; lia)) as (r & Er).
+  rewrite <- (region_full_ext len _ _ s xrow (lineno_nosearch len (mark_of lblk) search s Hno)) in Er.
+  exists r. split; [exact Er|]. intro Hfit.
+  destruct Hlt as (L1 & L2 & L3 & L4 & L5 & L6).
+  destruct (region_body_ok m bs bb be bl s gbufs lblk len Hnn (conj L1 (conj L2 (conj L3 (conj L4 (conj L5 L6))))) Hdist Hlen
+              (callf cprog fuel (S (S (S d))))
+              (fun mm H => call_ex_lbuf mm gbufs bl (S (S d)) fuel H Hbl)
+              (fun mm H => call_lbuf_len mm bl lblk len (S (S d)) fuel H Hln Hlen)
+              search
+              (fun mm i xr vb e n j R Hi Ixr El Fl =>
+                 call_ex_lineno mm bs (length m) bl s i xr len gbufs lblk search d fuel n j
+                   (ri_str _ _ _ _ _ _ _ _ _ _ _ _ _ R) H256 (ri_loc _ _ _ _ _ _ _ _ _ _ _ _ _ R) (ri_xrow _ _ _ _ _ _ _ _ _ _ _ _ _ R)
+                   (ri_bufs _ _ _ _ _ _ _ _ _ _ _ _ _ R) Hbl (ri_lbuf _ _ _ _ _ _ _ _ _ _ _ _ _ R) Hln Hm
+                   (conj (lt_ne _ _ L1) (conj (lt_ne _ _ L5) (conj (lt_ne _ _ L6) (lt_ne _ _ L4)))) Ixr Hlen Hno Hi Hf El Fl)
+              xrow vb0 e0 Hs Hx Hbeg Hend Hb Hl Hlit Hxr He0 Hbig fuel r Er Hfit Hf) as (st' & i' & Ex & R & _).
+  exists (memm st'). split.
+  - rewrite callf_S. cbn [nth_error cprog F_ex_region]. change (fn_nparams cf_ex_region) with 3%nat. change (fn_nlocals cf_ex_region) with 6%nat.
+    cbn [length Nat.eqb Nat.sub repeat app]. rewrite Ex. reflexivity.
+  - destruct R as [A B C D E F G H]. repeat split; assumption.
+Qed.
